@@ -182,6 +182,8 @@ class Program:
                 self.bodies[body.path] = body
             for t in data["types"]:
                 self.types[t["path"]] = t
+            for t in data.get("foreign_types", []):
+                self.types.setdefault(t["path"], t)
             for c in data["consts"]:
                 self.consts[c["path"]] = c
         with open(os.path.join(facts_dir, "grammar.json")) as fh:
